@@ -207,6 +207,12 @@ def restore (ws : List Int) : List (Nat × Nat) → List Nat × Int × Int → L
     let w := wOf ws v
     restore ws rest (part.set v ip, if ip = 0 then a + w else a - w, if ip = 0 then b - w else b + w)
 
+/-- `fiduccia_mattheyses.rs:207-210`: `rewind_to`. -/
+def rewindTo (bestAt : Option Nat) : Nat :=
+  match bestAt with
+  | some v => v + 1
+  | none => 0
+
 /-- State carried from pass to pass. -/
 structure Outer where
   part : List Nat
@@ -229,9 +235,7 @@ def onePass (ch : Nat → Nat) (prm : Params) (g : Graph) (ws : List Int) (cap m
   match movesLoop ch prm g ws cap mpg (n + 1) 0 st0 with
   | .error a => .error a
   | .ok st =>
-    let r := match st.bestAt with
-      | some v => v + 1
-      | none => 0
+    let r := rewindTo st.bestAt
     if st.hist.length < r then .error .rewindRange else
     let res := restore ws (st.hist.drop r) (st.part, st.pw0, st.pw1)
     .ok { part := res.1, pw0 := res.2.1, pw1 := res.2.2, best := st.best
